@@ -144,7 +144,9 @@ type Vaxis struct {
 	mu     sync.Mutex
 	resize int32
 
-	// suspendMu lets one Suspend run at a time and guards suspended
+	// suspendMu lets one Suspend run at a time and guards suspended; a
+	// frame and the cursor calls take it too, Suspend shares the writer and
+	// the cursor state with them
 	suspendMu sync.Mutex
 }
 
@@ -485,6 +487,16 @@ func (vx *Vaxis) Resize() {
 
 // Render renders the model's content to the terminal
 func (vx *Vaxis) Render() {
+	// A frame and Suspend exclude one another: Close may come from the
+	// signal handler while the application is drawing, and both write
+	// through the same buffered writer. The frame under way is completed
+	// before the terminal is restored, and nothing is drawn on a terminal
+	// which has been given back
+	vx.suspendMu.Lock()
+	defer vx.suspendMu.Unlock()
+	if vx.suspended {
+		return
+	}
 	if atomicLoad(&vx.resize) {
 		// take the request before reading the size: a size change that
 		// arrives from here on raises it again and is seen by the next
@@ -1489,7 +1501,7 @@ func (vx *Vaxis) enterAltScreen() {
 }
 
 func (vx *Vaxis) exitAltScreen() {
-	vx.HideCursor()
+	vx.cursorNext.visible = false
 	_, _ = vx.tw.WriteString(decset(cursorVisibility))
 	_, _ = vx.tw.WriteString(clear)
 	_, _ = vx.tw.WriteString(decrst(alternateScreen))
@@ -1670,6 +1682,8 @@ func (vx *Vaxis) Resume() error {
 
 // HideCursor hides the hardware cursor
 func (vx *Vaxis) HideCursor() {
+	vx.suspendMu.Lock()
+	defer vx.suspendMu.Unlock()
 	vx.cursorNext.visible = false
 }
 
@@ -1677,6 +1691,9 @@ func (vx *Vaxis) HideCursor() {
 // passed column and row are 0-indexed and global. To show the cursor relative
 // to a window, use [Window.ShowCursor]
 func (vx *Vaxis) ShowCursor(col int, row int, style CursorStyle) {
+	// Suspend writes the cursor's state while it restores the terminal
+	vx.suspendMu.Lock()
+	defer vx.suspendMu.Unlock()
 	vx.cursorNext.style = style
 	vx.cursorNext.col = col
 	vx.cursorNext.row = row
